@@ -54,6 +54,7 @@ let dispatch fn args = match fn, args with
   | "freeobj", [frees; nr; gen] ->
       let l = free_object (List.map free_of (split ';' frees)) (n_of_hex nr) (n_of_hex gen) in
       String.concat ";" (List.map str_free l) ^ " " ^ str_of_bool (chain_ok l)
+  | "objhdr", [eol; nr; gen] -> hex_of_bytes (obj_header (eol_of eol) (n_of_hex nr) (n_of_hex gen))
   | "evfl", [h; frees] ->
       (* canonical (Go map order is arbitrary): well-formedness of the result + the set of free entries *)
       let fl = List.map free_of (split ';' frees) in
